@@ -20,6 +20,8 @@ Record cfg := {
   c_fix_ignored : bool;    (* true: repaired IN_IGNORED clean-up (`.get(path) == wd`); false: pinned *)
   c_fix_movein : bool;     (* true: a directory MOVED_TO with unknown source is watched (repair F9); false: pinned *)
   c_fix_simulate : bool;   (* true: _recursive_simulate skips files whose directory has no watch; false: pinned *)
+  c_fix_relabel : bool;    (* true: _add_watch drops the stale key of a descriptor that comes back under another path
+                              (repair F10e); false: pinned *)
   c_fix_moveout : bool;    (* true: a directory whose IN_MOVED_FROM is not followed by its IN_MOVED_TO is forgotten (repair
                               F10) and records for unknown descriptors are skipped; false: pinned (KeyError) *)
   c_faults : list nat      (* indices of inotify_add_watch calls that fail (transient ENOENT/ENOSPC) *)
@@ -41,6 +43,18 @@ Fixpoint mem_nat (x : nat) (l : list nat) : bool :=
 Section Reader.
   Variable C : cfg.
 
+  (* the descriptor the kernel returned is already recorded under another path whose key still points to it:
+     that key is stale (the directory was renamed before the reader got here) and is deleted *)
+  Definition unlabel (r : rstate) (wd : N) (p : bytes) : list (bytes * N) :=
+    if c_fix_relabel C then
+      match alookup N.eqb wd (pfw r) with
+      | Some known =>
+        if negb (beqb known p) && (match alookup beqb known (wfp r) with Some w => N.eqb w wd | None => false end)
+        then aremove beqb known (wfp r) else wfp r
+      | None => wfp r
+      end
+    else wfp r.
+
   (* self._add_watch(path, mask): None = OSError raised *)
   Definition add_watch (r : rstate) (k : kst) (t : fs) (p : bytes) : option (rstate * kst * N) :=
     let n := calls r in
@@ -49,7 +63,7 @@ Section Reader.
     else match kadd_watch k t p (c_mask C) with
          | None => None
          | Some (k', wd) =>
-           Some ({| wfp := aset beqb p wd (wfp r1); pfw := aset N.eqb wd p (pfw r1); mvf := mvf r1;
+           Some ({| wfp := aset beqb p wd (unlabel r1 wd p); pfw := aset N.eqb wd p (pfw r1); mvf := mvf r1;
                     calls := calls r1; pend := pend r1 |}, k', wd)
          end.
 
